@@ -4,12 +4,12 @@
 package gbnrun
 
 import (
-	"testing/synctest"
 	"encoding/binary"
 	"fmt"
 	"runtime"
 	"strings"
 	"sync"
+	"testing/synctest"
 	"time"
 
 	"github.com/lightninglabs/lightning-node-connect/gbn"
@@ -96,20 +96,20 @@ func Describe(b []byte) []any {
 
 // Config describes one run.
 type Config struct {
-	N        uint8
-	Static   time.Duration // static resend timeout; 0 = adaptive
-	Ping     [2]time.Duration
-	Pong     [2]time.Duration
-	Msgs     [2]int // messages sent by client, server
-	Size     func(ep string, id int) int
-	Gap      func(ep string, id int) time.Duration // pause before Send(id)
-	Latency  time.Duration
-	Decide   vnet.Decider
-	Horizon  time.Duration // virtual time allowed after the handshake
-	Extra    []gbn.TimeoutOptions
-	Chunk    int
-	OnReady  func(r *Run) // called (in its own goroutine) after the handshake
-	NoClose  bool
+	N       uint8
+	Static  time.Duration // static resend timeout; 0 = adaptive
+	Ping    [2]time.Duration
+	Pong    [2]time.Duration
+	Msgs    [2]int // messages sent by client, server
+	Size    func(ep string, id int) int
+	Gap     func(ep string, id int) time.Duration // pause before Send(id)
+	Latency time.Duration
+	Decide  vnet.Decider
+	Horizon time.Duration // virtual time allowed after the handshake
+	Extra   []gbn.TimeoutOptions
+	Chunk   int
+	OnReady func(r *Run) // called (in its own goroutine) after the handshake
+	NoClose bool
 	// Strict marks a scenario in which the trace specification may assume a
 	// silent peer: the first N Sends must return without waiting.
 	Strict bool
@@ -138,7 +138,7 @@ type Config struct {
 	RecvForever bool
 	// CloseScript, if set, replaces the default closing of both ends.
 	CloseScript func(r *Run)
-	RecvSlow func(ep string, id int) time.Duration
+	RecvSlow    func(ep string, id int) time.Duration
 	// SendLag: after the handshake the transport's send calls of the client
 	// / the server return only this long after the packet went on the link.
 	SendLag [2]time.Duration
